@@ -322,7 +322,7 @@ class Session:
                          "buffered_steps": 0, "excs": 0}
         shared_store = None
         for i, init in enumerate(case["res"]):
-            r = catalog.Resource(self.info, scratch, f"r{i}", store=shared_store)
+            r = catalog.Resource(self.info, scratch, f"r{i}", store=shared_store, symlink=case.get("symlink"))
             if r.store is not None and shared_store is None:
                 shared_store = r.store
             if init != MISSING:
@@ -494,7 +494,8 @@ class Session:
             return self._new_root(step["new_root"], step["res"])
         if "outside" in step:
             self.resources[step["res"]].outside_write(model.norm(model.decode(step["outside"])),
-                                                      bump=step.get("bump", True))
+                                                      bump=step.get("bump", True),
+                                                      replace=bool(step.get("replace")))
             self.model.outside(step["res"], model.norm(model.decode(step["outside"])))
             if "trans" in step:
                 k = "trans:" + step["trans"]
